@@ -7,7 +7,7 @@
 
 World *g_world = nullptr;
 Arena &thread_arena() { static thread_local std::unique_ptr<Arena> a; if (!a) a.reset(new Arena()); return *a; }
-BFail g_bfail;
+thread_local BFail g_bfail;   // per OS thread: a failure attached to one task's call must not be consumed by another's
 bool announce_ops = false;
 Cur &cur() { static thread_local Cur c; return c; }
 
@@ -301,7 +301,7 @@ struct Delivered {
     bool sizes_sane = true;
 };
 
-static Delivered deliver(World &W, const Obj &o, const Slot &s, const Json &dl) {
+static Delivered deliver(World &W, const Obj &o, const Slot &s, const Json &dl, const Json &fxall = Json()) {
     Delivered D;
     ref::InstView I = inst_view(W, s);
     int n = (int) o.dev.size();
@@ -310,6 +310,7 @@ static Delivered deliver(World &W, const Obj &o, const Slot &s, const Json &dl) 
         int dev = n ? (int) ((u64) e["dev"].num() % (u64) n) : 0;
         std::vector<u8> b = o.dev[dev];
         apply_fx(W, b, e["fx"], &o, dev);
+        if (fxall.size()) apply_fx(W, b, fxall, &o, dev);   // the same edit on every delivered fragment (a consistently wrong writer)
         bool pr = (b == o.orig[dev]);
         bool okc = b.size() >= ref::HDR && ref::accept_consume(b.data());
         if (!okc) D.any_bad_consume = true;
@@ -520,7 +521,7 @@ static void op_get(World &W, const Json &op) {
     Obj &o = W.objs[(size_t) op["obj"].num() % World::NOBJ];
     if (!s.live || !o.valid) return;
     if (op.has("env")) { if (op["env"].isnull()) set_env(W, false, ""); else set_env(W, true, op["env"].str()); W.fault("ENV"); }
-    Delivered D = deliver(W, o, s, op["dl"]);
+    Delivered D = deliver(W, o, s, op["dl"], op["fxall"]);
     int num = (int) D.ptrs.size();
     int force = op["force"].in(0);
     if (!D.sizes_sane) { W.probe("get.skipped-header-lies-about-sizes"); thread_arena().release_all(); return; }
@@ -529,7 +530,8 @@ static void op_get(World &W, const Json &op) {
     cur().api = "decode";
     arm_bfail(W, op);
     long inj0 = isal_injected_failures();
-    int rc = liberasurecode_decode(s.desc, D.ptrs.data(), num, o.flen, force, &out, &outlen);
+    char **frlist = (char **) thread_arena().place((const u8 *) D.ptrs.data(), D.ptrs.size() * sizeof(char *), Arena::RIGHT);   // the list itself is an input too
+    int rc = liberasurecode_decode(s.desc, frlist, num, o.flen, force, &out, &outlen);
     bool fired = disarm_bfail(W);
     if (isal_injected_failures() != inj0) { fired = true; W.fault("ISAL_INVERT_FAIL.fired"); }
     W.trace.add("get.rc", rc);
@@ -588,7 +590,7 @@ static void op_repair(World &W, const Json &op) {
     if (!s.live || !o.valid) return;
     if (op.has("env")) { if (op["env"].isnull()) set_env(W, false, ""); else set_env(W, true, op["env"].str()); W.fault("ENV"); }
     else if (o.legacy != env_legacy(W)) set_env(W, o.legacy, "1");  // hold the writer profile (C03 does not speak about changing it)
-    Delivered D = deliver(W, o, s, op["dl"]);
+    Delivered D = deliver(W, o, s, op["dl"], op["fxall"]);
     int num = (int) D.ptrs.size();
     int dest = op["dest"].in();
     if (!D.sizes_sane) { W.probe("repair.skipped-header-lies-about-sizes"); thread_arena().release_all(); return; }
@@ -599,7 +601,8 @@ static void op_repair(World &W, const Json &op) {
     cur().api = "reconstruct_fragment";
     arm_bfail(W, op);
     long inj0 = isal_injected_failures();
-    int rc = liberasurecode_reconstruct_fragment(s.desc, D.ptrs.data(), num, o.flen, dest, (char *) outb);
+    char **frlist = (char **) thread_arena().place((const u8 *) D.ptrs.data(), D.ptrs.size() * sizeof(char *), Arena::RIGHT);
+    int rc = liberasurecode_reconstruct_fragment(s.desc, frlist, num, o.flen, dest, (char *) outb);
     bool fired = disarm_bfail(W);
     if (isal_injected_failures() != inj0) { fired = true; W.fault("ISAL_INVERT_FAIL.fired"); }
     W.trace.add("repair.rc", rc);
@@ -861,7 +864,8 @@ static void op_vsm(World &W, const Json &op) {
     if (ptrs.empty()) { thread_arena().release_all(); return; }
     if (!s.bever_known && s.cfg.be != EC_BACKEND_NULL) { thread_arena().release_all(); return; }
     cur().api = "verify_stripe_metadata";
-    int rc = liberasurecode_verify_stripe_metadata(s.desc, ptrs.data(), (int) ptrs.size());
+    char **frlist = (char **) thread_arena().place((const u8 *) ptrs.data(), ptrs.size() * sizeof(char *), Arena::RIGHT);
+    int rc = liberasurecode_verify_stripe_metadata(s.desc, frlist, (int) ptrs.size());
     W.trace.add("vsm.rc", rc);
     if (judged) {
         W.probe(anybad ? "vsm.ref-bad" : "vsm.ref-good");
